@@ -69,7 +69,7 @@ def run(rep, tier):
     rep.undecided = "equality of the masked and unmasked permutations (non-linear)"
     cfgs = configs(tier)
     builds = repo.configure_many(cfgs)
-    lowered = repo.lower_many([(b, dict(group="lib", level="O0", langs=("c",))) for b in builds])
+    lowered = repo.lower_many([(b, dict(group="lib", level="O0", langs=("c",), scev=True)) for b in builds])
     rep.rule("C10.D1", "share-count of every masked primitive call matches the configured key / data shares")
     rep.rule("C10.D3", "KEY_SHARES-1 fresh random words are drawn into `preserve` before each key-share permutation")
     for b, lr in zip(builds, lowered):
@@ -78,7 +78,8 @@ def run(rep, tier):
         rep.units.update(lr.units)
         ks, ds, ms = effective_shares(b)
         rule_arity(rep, m, b.cfg.name, ks, ds)
-        rule_preserve(rep, m, b.cfg.name, ks)
+        lri = repo.lower(b, group="lib", level="O0", langs=("c",), scev=True, inline_internal=True)
+        rule_preserve(rep, ir.Module.load(lri.json), b.cfg.name, ks)
     rep.floor("C10.D1", 40 * len(cfgs))
     rep.floor("C10.D3", 6 * len(cfgs))
     try:
@@ -220,16 +221,49 @@ def rule_preserve(rep, m, cname, ks):
             continue
         pp = f.params[pidx]
         fresh = set()
+        unknown = False          # writes to preserve[] whose position this rule cannot name
+        dom = f.dominators()
         for i in f.insts():
             if i.op == "store":
                 pv = R.resolve(i.ops[1])
                 if pv.single() == ("param", pp) and pv.offset is not None:
                     d = f.defs.get(i.ops[0]) if ir.is_local(i.ops[0]) else None
                     if d is not None and d.op == "call" and d.callee == "ascon_trng_generate_64":
-                        if all(f.dominates(i, p) for p in perms):
+                        if pv.variable:
+                            unknown = True
+                        elif all(f.dominates(i, p) for p in perms):
                             fresh.add(pv.offset // 8)
+            elif i.op == "call" and (i.callee or "") != "ascon_trng_generate_64" and not re.match(r"^ascon_x\d_permute$", i.callee or ""):
+                if any(isinstance(a, str) and R.resolve(a).single() == ("param", pp) for a in i.ops):
+                    unknown = True       # preserve[] handed to a helper
+        # for (i = 0; i < N; ++i) preserve[i] = ascon_trng_generate_64(trng): a constant-trip-count loop in front of the
+        # permutation, address recurrence {preserve + c, +, 8}
+        for lp in f.d.get("loops", []):
+            if lp.get("btc_const") is None or len(lp.get("exiting", [])) != 1:
+                continue
+            blocks = set(lp["blocks"])
+            for rec in lp.get("scev", []):
+                mm = re.fullmatch(r"\{(?:\((\d+) \+ )?(%[\w.]+)\)?,\+,8\}(?:<[^>]*>)*", rec[2].strip()) if rec[1] == "store" else None
+                if not mm or mm.group(2) != pp:
+                    continue
+                ident = rec[0].split("@", 1)[1] if "@" in rec[0] else None
+                st = [i for i in f.insts() if i.op == "store" and i.block.name in blocks and i.ops[1] == ident]
+                if len(st) != 1:
+                    continue
+                d = f.defs.get(st[0].ops[0]) if ir.is_local(st[0].ops[0]) else None
+                if d is None or d.op != "call" or d.callee != "ascon_trng_generate_64":
+                    continue
+                ex = lp["exiting"][0]
+                execs = lp["btc_const"] + 1 if st[0].block.name in dom[ex] else lp["btc_const"]
+                if all(lp["header"] in dom[p.block.name] and p.block.name not in blocks for p in perms):
+                    base = int(mm.group(1) or 0) // 8
+                    fresh |= set(range(base, base + execs))
+                    unknown = False if fresh else unknown
         need = set(range(ks - 1))
-        if not need <= fresh:
+        if not need <= fresh and unknown:
+            rep.unproved_item(rid, "%s (%s): preserve[] is written through a helper or at positions this rule cannot name" % (
+                f.name, cname))
+        elif not need <= fresh:
             rep.violation(rid, "%s:preserve" % f.name, perms[0].where(),
                           "%s permutes the %d-share key state with preserve word(s) %s not freshly drawn from the "
                           "random source" % (f.name, ks, sorted(need - fresh)), config=cname)
